@@ -53,7 +53,9 @@ def counts(smi):
         cnt[a.GetSymbol()] += 1
         cnt["H"] += a.GetTotalNumHs()
         cnt["q"] += a.GetFormalCharge()
-    return +cnt if cnt["q"] else collections.Counter({k: v for k, v in cnt.items() if k != "q" and v})
+    out = {k: v for k, v in cnt.items() if v and k != "q"}
+    out["q"] = cnt["q"]  # total formal charge, kept even when zero or negative
+    return out
 
 
 def unmapped_canonical(smi):
